@@ -14,6 +14,9 @@ CLAIMS = {
  "C20": ("Account-balance aggregation and the posting / payee / tag counts are modelled; C20_sum proves, for every transaction list, that the figure per (account, commodity) is the exact rational sum of the explicitly posted amounts, and that sums and counts are additive over primary + included files (each file counted once per occurrence in FileOrder). Every run hovers every account, payee and tag of generated multi-file directories before and after edits and compares the displayed figures with exact aggregates over the scope the property names.",
          "Trusted: Coq kernel+VM; parser output and the server's resolved transaction list are inputs of the model; markdown parsing in the harness; known finding tree_truncated_after_reload (root cause C11).",
          "Coq proof of exact sums for all transaction lists + end-to-end differential oracle over include trees", "5 C20"),
+ "C03": ("Lexer and parser are transcribed function by function into Gallina (tokens, AST with every range, error positions) and the models equal the real parser on every generated input (full AST equality). The full statement is refuted: nine machine-checked witnesses, one per class of G spellings that the parser misreads (all recorded known findings); the baseline journal is proved faithful. Every run prints journals from G structures with layout variation, parses them with the real parser and requires no syntax error and extract(AST) = the structure, with exactly one risky class enabled in 30% of the cases.",
+         "Trusted: Coq kernel+VM; the transcription (checked by the full-AST tie only); G generator/printer in Go. A universal round-trip theorem on the unrefuted fragment G- is NOT proved (ceiling): outside the witnesses, fidelity on G- rests on the tie and oracle.",
+         "Coq refutation witnesses through transcribed lexer+parser + full-AST correspondence + structure round-trip oracle", "5 C03"),
  "C06": ("The lexer is transcribed function by function into Gallina; C06_next_progress proves for EVERY lexer state with input left (arbitrary bytes: invalid UTF-8, NUL, unterminated constructs) that one call of Next consumes at least one byte, and C06_lex_total that tokenising any input terminates with EOF within |input|+1 tokens. Every run compares the model's token stream (types, values, positions) with the implementation's on damaged journals, fragment soups, raw bytes and long repetitions, checks coverage of the observed stream, and runs every handler at sampled positions under recover() and a per-request time budget.",
          "PARTIAL for the crash/time clause: panics, hangs and wall time of parser, analyzer, formatter and handlers are searched by the harness, not proved (runtime behaviour); proved part: tokenisation progress/totality on the transcribed lexer. Known finding huge_exponent.",
          "Coq proof of lexer progress/totality over all byte strings + token-stream correspondence + crash/time search on every handler", "5 C06"),
